@@ -75,6 +75,10 @@ def run_case(case, peek=None):
             t2_last = max(t2_last, dt)
         tl2.append([t2_last + 5.0, ["data", rm.encode_frame(1, rm.CLOSE, struct.pack(">H", 1000))]])
         specs_att = [{"timeline": timeline, "hs_extra": hs_extra, "hs_delay": case.get("hs_delay", 0.0)}, {"timeline": tl2}]
+    if case.get("full_close"):
+        for sp in specs_att:
+            if isinstance(sp, dict):
+                sp["full_close"] = True  # the server's end of stream is a close() of its socket (later client writes meet a reset)
     sc = simpeers.Scenario(sched, net, specs_att)
     trace = []
     raising = set(case.get("raise_in", []))
@@ -311,7 +315,7 @@ def cases(draw):
     cbs = draw(st.one_of(st.just(CBS), st.lists(st.sampled_from(CBS), unique=True, min_size=1).map(sorted)))
     raise_in = draw(st.one_of(st.just([]), st.lists(st.sampled_from(["on_open", "on_message", "on_data", "on_ping", "on_pong"]), unique=True, max_size=3).map(sorted)))
     echo = draw(st.integers(0, 2)) == 0
-    c = {"external": draw(st.integers(0, 3)) == 0, "cb_kind": draw(st.sampled_from(["function", "function", "partial", "object", "method"])), "echo": echo, "segments": segs, "callbacks": cbs, "raise_in": [r for r in raise_in if r in cbs], "secure": draw(st.booleans()), "hs_delay": draw(st.sampled_from([0.0, 0.2]))}
+    c = {"external": draw(st.integers(0, 3)) == 0, "cb_kind": draw(st.sampled_from(["function", "function", "partial", "object", "method"])), "echo": echo, "segments": segs, "callbacks": cbs, "raise_in": [r for r in raise_in if r in cbs], "secure": draw(st.booleans()), "hs_delay": draw(st.sampled_from([0.0, 0.2])), "full_close": draw(st.integers(0, 2)) == 0}
     if draw(st.integers(0, 3)) == 0:
         # the connection is lost and re-established (reconnect interval set): on_reconnect / on_open must precede the new connection's events
         t2 = 0.0
